@@ -205,9 +205,8 @@ theorem sm_times (σf : List Snap → List Nat) (hσ : ∀ qs, SortsAsc (σf qs)
         | error e => simp [hex] at h
         | ok ns =>
           simp only [hex] at h
-          split at h
-          · cases h
-          · cases h; rfl
+          cases h
+          rfl
 
 theorem tmTail_bpms (T : Rat) (cur : BcSnap) (rest : List BcSnap) : (tmTail T cur rest).map (·.bpm) = rest.map (·.bpm) := by
   induction rest generalizing T cur with
@@ -288,7 +287,7 @@ theorem chart_own_header (t0 : Option Rat) (bcs : Option (List BcSnap)) (ss : Bo
     readNotes data t0 bcs ss = .ok (c.bpms, c.notes) :=
   SM.readMap_fields t0 bcs ss pre ct ds df mv rv data hc c h
 
-/-! ### known findings (open): counterexamples on the model -/
+/-! ### findings: D31 (repaired) as a regression theorem, D32 (open) as a counterexample on the model -/
 
 def textNoStops : Str :=
   ['#','O','F','F','S','E','T',':','0',';','#','B','P','M','S',':','0','=','1','2','0',';','#','N','O','T','E','S',':','d','a','n','c','e','-','s','i','n','g','l','e',':',':',':','1',':','0',':','1','0','0','0','\n','0','0','0','0','\n','0','0','0','0','\n','0','0','0','0',';']
@@ -297,14 +296,14 @@ def textCommentColon : Str :=
 def textSample : Str :=
   ['#','O','F','F','S','E','T',':','-','0','.','5',';','#','B','P','M','S',':','0','=','1','2','0',';','#','S','T','O','P','S',':',';','#','N','O','T','E','S',':','d','a','n','c','e','-','s','i','n','g','l','e',':','d',':','H','a','r','d',':','5',':','0',',','0',':','1','0','0','0','\n','0','1','0','0','\n','0','0','1','0','\n','0','0','0','1','\n',',','\n','2','0','0','0','\n','0','0','0','0','\n','3','0','0','0','\n','0','0','0','0',';']
 
-/-- **DSM1**: a text with no `#STOPS` tag: by the StepMania rules it has one chart with one tap
-(`denote`), the reader raises (`stops.sorted` on `None`, AttributeError → class `other`). -/
-theorem no_stops_tag_counterexample :
-    read textNoStops = .error (.py .other) ∧
+/-- **D31 (repaired)**: a text with no `#STOPS` tag reads (the stop list defaults to empty) and gives the chart
+the StepMania rules give — one chart with one tap at beat 0. -/
+theorem no_stops_tag_reads :
+    (read textNoStops).toOption.map (fun ms => ms.charts.map (fun c => c.notes.map (fun n => (n.col, n.time)))) = some [[(0, 0)]] ∧
     (denote textNoStops).map (fun d => (d.stopsPresent, d.charts.map (fun c => c.notes.length))) = some (false, [1]) := by
   decide +kernel
 
-/-- **DSM2**: a comment whose text contains ':' inside a chart: by the StepMania rules (comments are removed
+/-- **D32 (open)**: a comment whose text contains ':' inside a chart: by the StepMania rules (comments are removed
 first) the chart has 4 taps; the reader returns only the 2 after the comment. -/
 theorem comment_colon_counterexample :
     (read textCommentColon).toOption.map (fun ms => ms.charts.map (fun c => c.notes.length)) = some [2] ∧
